@@ -174,8 +174,8 @@ def view(score):
                                                o.actual_notes, o.normal_notes, o.actual_type, o.normal_type,
                                                o.start.t if o.start is not None else None, o.end.t if o.end is not None else None) for o in p.iter_all(sc.Tuplet))))
         v["dynamics_wedges_words"].append((pid, _srt(
-            (type(o).__name__, o.text, o.start.t, o.end.t if o.end is not None else None, o.staff, bool(getattr(o, "wedge", False)))
-            for o in p.iter_all(sc.Direction, include_subclasses=True)) + _srt(("Words", o.text, o.start.t, None, o.staff, False) for o in p.iter_all(sc.Words))))
+            (type(o).__name__, o.text, o.start.t, o.end.t if o.end is not None else None, o.staff, bool(getattr(o, "wedge", False)), getattr(o, "raw_text", None) or o.text)
+            for o in p.iter_all(sc.Direction, include_subclasses=True)) + _srt(("Words", o.text, o.start.t, None, o.staff, False, o.text) for o in p.iter_all(sc.Words))))
         v["tempo_marks"].append((pid, _srt((o.start.t, int(to_quarter_tempo(o.unit or "q", o.bpm))) for o in p.iter_all(sc.Tempo))))
         v["repeats_endings_barline_fermatas"].append((pid, _srt((o.start.t if o.start is not None else None, o.end.t if o.end is not None else None) for o in p.iter_all(sc.Repeat)),
                                                       _srt((o.number, o.start.t if o.start is not None else None, o.end.t if o.end is not None else None) for o in p.iter_all(sc.Ending)),
